@@ -1,5 +1,6 @@
 // C07 digests vs libcrypto, C08 HMAC / tag layout / tag comparison.
 #include "ctx.hpp"
+#include <algorithm>
 #include "hashmaster.h"
 
 #ifdef WENCRY_VERIF_HBUF_UNITS
@@ -200,6 +201,36 @@ static bool real_cmp(int hm, const uint8_t key[16], const bytes &m, size_t pos, 
   return r;
 }
 
+
+// tags that differ from the right one in MORE than one byte, shaped to defeat broken comparisons (sums, xor folds,
+// word-wise or prefix/suffix compares)
+static std::vector<std::pair<std::string, bytes>> tag_variants(const bytes &want, vh::Rng &r) {
+  std::vector<std::pair<std::string, bytes>> v;
+  int hl = (int)want.size();
+  auto two = [&](int i, int j, uint8_t di, uint8_t dj, const char *fam) {
+    if (i == j) return;
+    bytes t = want;
+    t[i] ^= di; t[j] ^= dj;
+    v.push_back({fam, t});
+  };
+  int ri = (int)r.below(hl), rj = (int)r.below(hl);
+  two(0, 1, 0x80, 0x80, "two-bytes-0x80"); two(0, hl - 1, 0x80, 0x80, "two-bytes-0x80"); two(hl - 2, hl - 1, 0x80, 0x80, "two-bytes-0x80"); two(ri, rj, 0x80, 0x80, "two-bytes-0x80");
+  for (uint8_t d : {(uint8_t)1, (uint8_t)0x40, (uint8_t)0x7f}) { two(ri, rj, d, (uint8_t)(256 - d), "diffs-sum-256"); two(0, hl - 1, d, (uint8_t)(256 - d), "diffs-sum-256"); }
+  two(ri, rj, 0x5a, 0x5a, "equal-diffs-xor-fold-0"); two(1, hl - 2, 0x01, 0x01, "equal-diffs-xor-fold-0");
+  { bytes t = want; for (int k = 0; k < 4; k++) t[(ri + k * 3) % hl] ^= 0x40; v.push_back({"four-diffs-0x40", t}); }
+  { bytes t = want; for (auto &b : t) b = (uint8_t)~b; v.push_back({"all-bytes-inverted", t}); }
+  { bytes t = want; for (auto &b : t) b = (uint8_t)(b + 1); v.push_back({"all-bytes-plus-1", t}); }
+  for (int k : {1, 4, 8, 16, hl - 4, hl - 1}) {
+    if (k <= 0 || k >= hl) continue;
+    { bytes t(hl, 0); memcpy(t.data(), want.data(), k); for (int q = k; q < hl; q++) t[q] = (uint8_t)(want[q] ^ 0xA5); v.push_back({"only-prefix-right-" + std::to_string(k), t}); }
+    { bytes t(hl, 0); for (int q = 0; q < hl - k; q++) t[q] = (uint8_t)(want[q] ^ 0xA5); memcpy(t.data() + hl - k, want.data() + hl - k, k); v.push_back({"only-suffix-right-" + std::to_string(k), t}); }
+  }
+  { bytes t(want.rbegin(), want.rend()); v.push_back({"reversed", t}); }
+  { bytes t = want; std::rotate(t.begin(), t.begin() + 1, t.end()); v.push_back({"rotated", t}); }
+  { bytes t(hl, 0); v.push_back({"all-zero", t}); }
+  return v;
+}
+
 void run_C08(Ctx &cx) {
   const size_t nmax = cx.thorough ? 2100 : 600;
   // (1) message level
@@ -236,6 +267,16 @@ void run_C08(Ctx &cx) {
           int hl = ref::hlen_of(hm);
           int bit = (int)r.below(8 * hl);
           int nflips = n % 49 == 0 ? 8 * hl : 1;
+          if (n % 21 == 0)
+            for (auto &tv : tag_variants(want, r)) {
+              if (tv.second == want) continue;
+              cx.rep.count("tag_multibyte_variants");
+              if (real_cmp(hm, key, m, pos, tv.second)) {
+                vh::J d;
+                d.str("family", tv.first).str("right", vh::hex(want)).str("accepted", vh::hex(tv.second));
+                cx.rep.violation("C08|cmphmac-accepts-wrong-tag|multi|" + tv.first, "cmphmac accepted a tag that differs in several bytes", d.done());
+              }
+            }
           for (int q = 0; q < nflips; q++) {
             int b = nflips == 1 ? bit : q;
             bytes t = want;
